@@ -277,6 +277,14 @@ impl<T> JoinHandle<T> {
 
         if should_block {
             thread::switch();
+
+            // A scoped thread wakes the owner of its scope as soon as the last scoped closure has returned,
+            // which can be before the joinee has run its thread-local destructors and published its result.
+            // We are still registered as the joinee's waiter, so keep waiting for its own wake-up.
+            while self.result.lock().unwrap().is_none() {
+                ExecutionState::with(|state| state.current_mut().block(false));
+                thread::switch();
+            }
         }
 
         // Waiting thread inherits the clock of the finished thread
